@@ -100,3 +100,8 @@ Theorem C12_layout :
   STRONG_WIDTH + WEAK_WIDTH + 2 + EPOCH_WIDTH = 64 /\ EPOCH_WIDTH = HIGH_TAG_WIDTH.
 Proof. exact layout_widths. Qed.
 Print Assumptions C12_layout.
+
+(* "old enough" = at least the collector's own grace period (generated from ebr_impl/internal.rs) *)
+Theorem C12_threshold_covers_grace : EXPIRE_AFTER <= RECLAIM_AGE.
+Proof. exact threshold_covers_grace. Qed.
+Print Assumptions C12_threshold_covers_grace.
